@@ -13,6 +13,7 @@ import (
 	"sync"
 	"testing"
 	"time"
+	_ "time/tzdata"
 
 	"github.com/sourcegraph/zoekt"
 	"github.com/sourcegraph/zoekt/index"
@@ -613,7 +614,23 @@ func runC32(t *testing.T, tp *simrt.Tape, faults bool) hx.Result {
 	indexDir := filepath.Join(base, "index")
 	trashDir := filepath.Join(indexDir, ".trash")
 	os.MkdirAll(trashDir, 0o755)
+	// "older than 24 hours" is a duration: the day after the clocks went forward a
+	// calendar day is only 23 hours long in local time
 	now := time.Date(2024, 3, 1, 12, 0, 0, 0, time.UTC)
+	switch tp.Gen(6) {
+	case 0:
+		if loc, err := time.LoadLocation("Europe/Berlin"); err == nil {
+			now = time.Date(2024, 3, 31, 12, 0, 0, 0, loc)
+		}
+	case 1:
+		if loc, err := time.LoadLocation("America/New_York"); err == nil {
+			now = time.Date(2025, 3, 9, 12, 0, 0, 0, loc)
+		}
+	case 2:
+		if loc, err := time.LoadLocation("Australia/Sydney"); err == nil {
+			now = time.Date(2024, 4, 7, 12, 0, 0, 0, loc) // clocks went back: a 25-hour day
+		}
+	}
 	merging := tp.Gen(2) == 0
 	nRepos := tp.GenRange(3, 6)
 	var ids []uint32
